@@ -81,16 +81,15 @@ TMRun == /\ Is("mrun") /\ ~Idle /\ Rec[base].ev = "minit"
                /\ CleanB(s + 1, e - s)                           \* the whole span is clean
                \* every window of the run has minimiser v - RunCover!AllWindowsByLast written out on the span's canonical m-mers
                \* (one pass over the span instead of one per window; the equivalence with the plain form is model-checked
-               \* there): nothing in the span is smaller than v, and every window holds an occurrence of v (for a handful of occurrences
+               \* there): nothing in the span is smaller than v, and every window holds an occurrence of v (for a handful of windows
                \* window by window; otherwise through the most recent occurrence at or before the window's last m-mer)
                /\ LET cm == [j \in (s + 1)..(e - M + 1) |-> Canon(Dig(j, M))]       \* canonical m-mers of the span, once
-                      occset == {j \in (s + 1)..(e - M + 1) : cm[j] = v}            \* where v occurs
                       q == W - M + 1                                                  \* m-mers per window
-                      \* many occurrences: the most recent one at or before j (RunCover!AllWindowsByLast; shallow recursion)
+                      \* the most recent occurrence at or before j (RunCover!AllWindowsByLast; recursion as deep as the longest gap)
                       last[j \in s..(e - M + 1)] == IF j = s THEN 0 ELSE IF cm[j] = v THEN j ELSE last[j - 1]
                   IN /\ \A j \in (s + 1)..(e - M + 1) : ~LexLess(cm[j], v)
-                     /\ IF Cardinality(occset) <= 24 /\ e - W - s < 5000      \* a handful: window by window, as stated
-                        THEN \A t \in s..(e - W) : {j \in occset : j >= t + 1 /\ j <= t + 1 + W - M} # {}      \* (a set test: \E in an action branches)
+                     /\ IF e - W - s < 24      \* a handful of windows (w = 0: one): window by window, as stated
+                        THEN \A t \in s..(e - W) : {j \in (t + 1)..(t + 1 + W - M) : cm[j] = v} # {}      \* (a set test: \E in an action branches)
                         ELSE \A t \in s..(e - W) : last[t + 1 + W - M] >= t + 1
                /\ (adj /\ s = nxt) => lastv # v                 \* maximal on the left
                /\ IF Rec[base].kv = 1
